@@ -168,7 +168,28 @@ impl Validator {
                     kind: LinkerErrorType::MissingDependency,
                 }) {
                     Ok(mut tld) => {
-                        if let Err(mut e) = tld.link_constraint_reference(&self.tlds) {
+                        // Inside a parameterized type its formal parameters hide definitions of the
+                        // same name: those are resolved when the type is instantiated
+                        let hidden: Vec<&String> = match &tld {
+                            ToplevelDefinition::Type(ToplevelTypeDefinition {
+                                parameterization: Some(p),
+                                ..
+                            }) => p
+                                .parameters
+                                .iter()
+                                .map(|a| &a.dummy_reference)
+                                .filter(|n| self.tlds.contains_key(*n))
+                                .collect(),
+                            _ => Vec::new(),
+                        };
+                        let linked = if hidden.is_empty() {
+                            tld.link_constraint_reference(&self.tlds)
+                        } else {
+                            let mut scope = self.tlds.clone();
+                            scope.retain(|k, _| !hidden.contains(&k));
+                            tld.link_constraint_reference(&scope)
+                        };
+                        if let Err(mut e) = linked {
                             e.contextualize(&key);
                             warnings.push(e.into());
                         }
